@@ -2303,7 +2303,9 @@ class RlWriter:
         return build_paragraph(txt, heading_style(mode="tablecaption"))
 
     def renderCaption(self, table):
-        res = []
+        # a nested table is written once to measure it and once to render it;
+        # the caption leaves the tree the first time, so remember it
+        res = getattr(table, "rendered_caption", [])
         for row in table.children[:]:
             if row.__class__ == Caption:
                 res = self.writeCaption(row)
@@ -2312,6 +2314,7 @@ class RlWriter:
                 )  # this is slight a hack. we do this in order not to simplify cell-coloring code
             elif row.__class__ != advtree.Row:
                 table.remove_child(row)
+        table.rendered_caption = res
         return res
 
     def writeCell(self, cell):
